@@ -38,6 +38,10 @@ def shuffle_ps (z : α) (a b : List α) (imm : Nat) : List α :=
 def loadl_pi (z : α) (x : List α) (a : Nat → α) (o : Nat) : List α := [a o, a (o + 1), pick z x 2, pick z x 3]
 def load_ss (z : α) (a : Nat → α) (o : Nat) : List α := [a o, z, z, z]
 def setzero (z : α) (n : Nat) : List α := List.replicate n z
+/-- `_mm_loadul3_ps(p)` (Fastor/simd_vector/extintrin.h): three lanes from memory, the fourth zeroed (masked load under
+    AVX-512VL / AVX, three `load_ss` + `movelh` + `shuffle` under SSE); its counterpart `_mm_storeul3_ps(p, v)` stores the
+    three low lanes (`store z o 3 v`) -/
+def loadul3_ps (z : α) (a : Nat → α) (o : Nat) : List α := [a o, a (o + 1), a (o + 2), z]
 
 /-- `_MM_TRANSPOSE4_PS` (xmmintrin.h) -/
 def MM_TRANSPOSE4_PS (z : α) (r0 r1 r2 r3 : List α) : List α × List α × List α × List α :=
